@@ -192,7 +192,35 @@ def chk_buffer(case, acc, seed):
     acc.case(case, outcome='buffer')
 
 
-DISPATCH = {'blur': chk, 'units': chk_units, 'scale': chk_scale, 'buffer': chk_buffer}
+def chk_big(case, acc, seed):
+    """a detector-sized frame (sides not multiples of a power of two): still the circular convolution with the analytic transfer
+    function (here through numpy's FFT of the reference kernel) and still commuting with circular translation"""
+    kind, shape = case['blur'], tuple(case['shape'])
+    rng = np.random.default_rng(1234 + seed)
+    img = rng.random(shape) + 0.5
+    ext = {'pixel': 3, 'jitter': 1.5, 'smear': 2.5}[kind]
+    H = transfer(kind, shape, ext, 30)
+    ref = np.abs(np.fft.ifft2(np.fft.fft2(img) * H))
+    try:
+        out = np.asarray(call(kind, img, ext, 30))
+    except Exception as e:
+        acc.violation(f'{kind}:big:raises:{type(e).__name__}', case, repr(e))
+        return
+    if out.shape != shape:
+        acc.violation(f'{kind}:big:shape', case, f'{out.shape}')
+        return
+    if rm.maxerr(out, ref) > 1e-9:
+        bad = np.argwhere(np.abs(out - ref) > 1e-9)
+        acc.violation(f'{kind}:big:transfer-function', case, f'{len(bad)} samples of a {shape} frame differ from the circular convolution (first at {tuple(bad[0])}, max {rm.maxerr(out, ref):.3e})')
+        return
+    o2 = np.asarray(call(kind, np.roll(img, (37, -101), (0, 1)), ext, 30))
+    if rm.maxerr(o2, np.roll(out, (37, -101), (0, 1))) > 1e-9:
+        acc.violation(f'{kind}:big:translation', case, 'does not commute with circular translation on a large frame')
+    acc.cls('big-frames')
+    acc.case(case, outcome='big')
+
+
+DISPATCH = {'big': chk_big, 'blur': chk, 'units': chk_units, 'scale': chk_scale, 'buffer': chk_buffer}
 
 
 DISPATCH['histop'] = histories.chk_case
@@ -205,6 +233,9 @@ def t_shape(arg, acc):
             acc.states += 1
             chk({'kind': 'blur', 'blur': kind, 'shape': shape, 'extent': ext, 'angle': ang,
                  'impulses': (ang in (0, 30) and ext in (0, 1, 2.5, 2))}, acc, seed)
+    if shape == SHAPES[0]:
+        for big in ((1101, 1003), (601, 1049)):        # odd sides: no unpaired Nyquist sample
+            chk_big({'kind': 'big', 'blur': kind, 'shape': big}, acc, seed)
     for ext in ((1, 2) if kind == 'pixel' else (0.5, 1.5)):
         chk_scale({'kind': 'scale', 'blur': kind, 'shape': shape, 'extent': ext}, acc, seed)
         for k1 in ('pixel', 'jitter', 'smear'):
@@ -232,7 +263,7 @@ def run(tier, seed, acc, procs=None):
         'bounds': {'shapes': shapes, 'extents': EXTENTS, 'angles': ANGLES},
         'assumptions': ['smear direction = (cos a, sin a) in (column, row) frequency coordinates (clockwise from the x axis on a row-down display)',
                         'Nyquist bound = sum |F H| over the unpaired Nyquist bins / N'],
-        'require': {'pixel:non-square': 8, 'jitter:non-square': 10, 'smear:non-square': 50, 'pixel:square': 4, 'conv-compared': 100, 'units': 50, 'homogeneity': 30, 'buffer-reuse': 100},
+        'require': {'pixel:non-square': 8, 'jitter:non-square': 10, 'smear:non-square': 50, 'pixel:square': 4, 'conv-compared': 100, 'units': 50, 'homogeneity': 30, 'buffer-reuse': 100, 'big-frames': 6},
     }
 
 
